@@ -1,5 +1,6 @@
 """Pack N - totality: may-panic inventory (N1/N2), signed wire integers as sizes (N3), allocation taint (N4),
 loop progress (N5), checked narrowing of lengths on the encode side (N6)."""
+import re
 from .. import mir, guards, callgraph
 from ..mir import show
 
@@ -528,7 +529,7 @@ def alloc_taint(an, rep, crate=None, roots=None, floor=True):
                 R.fail(b.key, "size argument of " + info["key"], "allocation sized by %s, which is not bounded by a "
                        "sanitiser" % show(arg), mir.loc(b, bb), {"call_path_from_root": path})
     if floor:
-        R.floor("allocation-size sinks in decode-reachable code", n, 5)
+        R.floor("allocation-size sinks in decode-reachable code", n, 2)
     return R
 
 
@@ -575,7 +576,10 @@ def loops_progress(an, rep):
                         if x[0] == "call" and x[1].startswith("RangeInclusive<Idx>::new"):
                             r = guards.rng(x[3][1])
                             bounded = bool(r and r[1] <= 65536)
-                    if not bounded and "RangeInclusive<u8>" not in self_ty and "Range<u8>" not in self_ty:
+                    if not bounded:
+                        n_items = guards._iter_count(src)
+                        bounded = n_items is not None and n_items <= 65537
+                    if not bounded and not re.search(r"Range(Inclusive)?<u(8|16)>", self_ty):
                         okk = False
                         R.fail(b.key, "range loop", "range bound is not of <=16-bit origin", mir.loc(b, bb),
                                {"call_path_from_root": path})
@@ -586,16 +590,46 @@ def loops_progress(an, rep):
 
 
 ACCEPTED_ITERS = ("core::array::iter::IntoIter<", "core::slice::iter::Iter<", "core::slice::iter::IterMut<", "alloc::vec::into_iter::IntoIter<",
-                  "core::iter::adapters::enumerate::Enumerate<core::slice::iter::Iter<",
+                  "alloc::vec::drain::Drain<", "core::option::IntoIter<", "core::option::Iter<",
+                  "alloc::collections::btree::map::Iter<", "alloc::collections::btree::map::IntoIter<",
+                  "alloc::collections::btree::set::Iter<", "std::collections::hash::map::Iter<", "hashbrown::map::Iter<",
+                  "core::str::iter::Chars<", "core::str::iter::Bytes<",
                   "desert_core::deserializer::DeserializerIterator<")
+# adaptors that yield at most as many items as their (first) source
+SHRINKING_ADAPTORS = ("core::iter::adapters::enumerate::Enumerate<", "core::iter::adapters::map::Map<",
+                      "core::iter::adapters::rev::Rev<", "core::iter::adapters::zip::Zip<", "core::iter::adapters::skip::Skip<",
+                      "core::iter::adapters::take::Take<", "core::iter::adapters::cloned::Cloned<",
+                      "core::iter::adapters::copied::Copied<", "core::iter::adapters::peekable::Peekable<",
+                      "core::iter::adapters::filter::Filter<", "core::iter::adapters::filter_map::FilterMap<",
+                      "core::iter::adapters::inspect::Inspect<", "core::iter::adapters::step_by::StepBy<",
+                      "core::iter::adapters::take_while::TakeWhile<", "core::iter::adapters::skip_while::SkipWhile<",
+                      "core::iter::adapters::fuse::Fuse<", "core::iter::adapters::map_while::MapWhile<")
 
 
-def classify_iter(ty):
-    t = ty.replace("&'{erased} mut ", "").replace("&mut ", "")
+def _first_generic(t):
+    i = t.index("<") + 1
+    depth = 0
+    for j in range(i, len(t)):
+        c = t[j]
+        if c in "<([":
+            depth += 1
+        elif c in ">)]":
+            if depth == 0:
+                return t[i:j]
+            depth -= 1
+        elif c == "," and depth == 0:
+            return t[i:j]
+    return t[i:]
+
+
+def classify_iter(ty, depth=0):
+    t = ty.replace("&'{erased} mut ", "").replace("&mut ", "").strip()
     if t.startswith(ACCEPTED_ITERS):
         return "mem"
     if t.startswith(("core::ops::range::RangeInclusive<", "core::ops::range::Range<")):
         return "range"
+    if t.startswith(SHRINKING_ADAPTORS) and depth < 6:
+        return classify_iter(_first_generic(t), depth + 1)
     return None
 
 
